@@ -16,6 +16,7 @@
 #include <cstddef>
 #include <cstdlib>
 #include <algorithm>
+#include <type_traits>
 #include <sys/mman.h>
 #include <sys/uio.h>
 #include <sanitizer/asan_interface.h>
@@ -125,8 +126,9 @@ enum { V_X = 0, V_YY, V_EMPTY, V_249, V_250, V_255, V_300, V_256 };
 enum Kind { GLOBAL = 0, VIEW = 1, CXX = 2 };
 static const char *kindname[] = { "global", "view", "cxx" };
 // COPY: assign(P, pointer obtained by querying Q) — the value handed to the store lives inside the store (Q may be P itself)
-enum OpKind { ASSIGN = 0, REMOVE = 1, DEL = 2, COPY = 3 };
-static const char *opword(int kind) { return kind == ASSIGN ? "assign" : (kind == COPY ? "copy" : "remove"); }
+// UNSET: assign(P, no value) through the interface — the entry stays, its value becomes absent, entries beneath are untouched
+enum OpKind { ASSIGN = 0, REMOVE = 1, DEL = 2, COPY = 3, UNSET = 4 };
+static const char *opword(int kind) { return kind == ASSIGN ? "assign" : (kind == COPY ? "copy" : (kind == UNSET ? "unset" : "remove")); }
 struct OpSpec { int target;  /* 0 = main interface, 1 = view interface */ int kind; int path; int value; };
 struct Job {
 	std::string name; int kind; int depth;
@@ -134,8 +136,10 @@ struct Job {
 	std::vector<OpSpec> ops;
 	std::vector<int> viewq;           // paths queried through the view (relative)
 	bool huge;                        // alphabet contains an over-long element: those pool entries are queried as well
-	Job() : kind(0), depth(0), huge(false) {}
+	bool probe;                       // C++ root: after every step a copy of the object is made, modified and destroyed
+	Job() : kind(0), depth(0), huge(false), probe(false) {}
 };
+static bool g_add_unset = false;
 static void add_ops(Job &j, int target, const std::vector<std::string> &paths, const std::vector<int> &vals, bool withdel = false, bool pairs = false)
 {
 	for (auto &p : paths) {
@@ -144,6 +148,7 @@ static void add_ops(Job &j, int target, const std::vector<std::string> &paths, c
 		// touch (copy P <- P) in every alphabet, copy from every other path in the alias alphabets
 		for (auto &q : paths) if (pairs || q == p) j.ops.push_back(OpSpec{target, COPY, P(p), P(q)});
 		j.ops.push_back(OpSpec{target, REMOVE, P(p), 0});
+		if (g_add_unset) j.ops.push_back(OpSpec{target, UNSET, P(p), 0});
 		if (withdel) j.ops.push_back(OpSpec{target, DEL, P(p), 0});
 		if (target == 1 && std::find(j.viewq.begin(), j.viewq.end(), P(p)) == j.viewq.end()) j.viewq.push_back(P(p));
 	}
@@ -170,12 +175,17 @@ static std::vector<Job> make_jobs(Tier t)
 		{ "values",   { "a", "a.b" },                               { V_X, V_EMPTY, V_249, V_250, V_255, V_300 }, 3, false },
 		{ "binary",   { "a.b", "bin:a", "bin:a/b", "bin:a/c", "bin:a/b/c", "bin:a/k200" }, { V_X }, 3, false },
 		{ "toolong",  { "a", "a.x", "a.x.Y70000" },                 { V_X },       4, false },
+		{ "unset",    { "a", "a.b", "b" },                          { V_X, V_249, V_250, V_300 }, 3, false },
+		{ "copyobj",  { "a", "a.b", "b" },                          { V_X, V_YY }, 3, false },
 		{ "alias-s",  { "a", "a.b", "b" },                          { V_X, V_YY }, 3, true },
 		{ "alias-l",  { "a", "b" },                                 { V_X, V_249, V_250, V_255, V_256, V_300 }, 3, true },
 	};
 	for (int kind : { GLOBAL, CXX }) for (auto &a : alphas) {
 		Job j; j.kind = kind; j.name = std::string("store:") + kindname[kind] + ":" + a.name; j.depth = t == Quick ? a.dquick : D;
+		if (!strcmp(a.name, "copyobj")) { if (kind != CXX) continue; j.probe = true; }
+		g_add_unset = !strcmp(a.name, "unset");
 		add_ops(j, 0, a.paths, a.vals, kind == CXX, a.pairs);
+		g_add_unset = false;
 		jobs.push_back(j);
 	}
 	// sub-tree views: operations through the view (relative paths) interleaved with operations through the process-wide interface
@@ -187,12 +197,15 @@ static std::vector<Job> make_jobs(Tier t)
 		{ "values", "a",   { "b", "<root>" },          { "a" },                 { V_X, V_EMPTY, V_250, V_300 }, 3, false },
 		{ "binary", "a",   { "bin:b", "bin:b/c", "b" }, { "bin:a/b", "a" },     { V_X },       3, false },
 		{ "toolong","a",   { "x", "x.Y70000" },        { "a", "a.x" },          { V_X },       4, false },
+		{ "unset",  "a",   { "<root>", "b" },          { "a" },                 { V_X, V_250, V_300 }, 3, false },
 		{ "alias",  "a",   { "<root>", "b" },          { "a", "a.b" },          { V_X, V_250, V_256 }, 3, true },
 	};
 	for (auto &a : valphas) {
 		Job j; j.kind = VIEW; j.name = std::string("store:view:") + a.name; j.depth = t == Quick ? a.dquick : D; j.base = a.base;
+		g_add_unset = !strcmp(a.name, "unset");
 		add_ops(j, 1, a.vpaths, a.vals, false, a.pairs);
 		add_ops(j, 0, a.gpaths, { V_X }, false, a.pairs);
+		g_add_unset = false;
 		jobs.push_back(j);
 	}
 	return jobs;
@@ -521,6 +534,24 @@ struct Sys {
 			v = it != val.end() ? it->second : std::string(vptr);
 			out.count(QK == K ? "copy:onto-itself" : "copy:from-other-path");
 		}
+		if (o.kind == UNSET) {
+			std::string d = fmt("unset %s %s (assign without value) via %s", p.label.c_str(), key_str(K).c_str(), store(o.target));
+			if (K.empty()) { out.count("unset:root(no-op)"); if (check) sweep(opsig, K, REMOVE, d + " (skipped)"); return !bad; }
+			out.count(val.count(K) ? (val[K].size() >= 250 ? "unset:long-value" : "unset:short-value") : "unset:valueless-or-absent");
+			if (val.count(K)) out.count("nontrivial");
+			if (g_notes) out.notes.push_back("op " + d);
+			asan_error(); phase("unset");
+			mpt::config *ci = c ? c : gcfg;
+			int ret = LIB(([&]() { mpt::path q; fill_path(q, p); return ci->assign(&q, 0); })());
+			if (g_notes) out.notes.push_back(fmt("  -> %d", ret));
+			for (size_t n = 1; n <= K.size(); ++n) may.insert(Key(K.begin(), K.begin() + n));
+			if (o.target) { for (size_t n = 1; n <= base.size(); ++n) may.insert(Key(base.begin(), base.begin() + n)); }
+			if (ret >= 0) val.erase(K); else out.count("unset:refused(not flagged)");
+			if (asan_error()) fail(opsig + "|asan", d + ": memory error inside the operation (AddressSanitizer)");
+			if (bad) return false;
+			if (check) sweep(opsig, K, REMOVE, d);
+			return !bad;
+		}
 		bool isassign = o.kind == ASSIGN || o.kind == COPY;
 		std::string desc = o.kind == COPY ? fmt("copy %s %s <- value pointer obtained by querying %s ('%s') via %s", p.label.c_str(), key_str(K).c_str(), pool[o.value].label.c_str(), abbrev(v).c_str(), store(o.target))
 		                 : fmt("%s %s %s%s via %s", opn, p.label.c_str(), key_str(K).c_str(), o.kind == ASSIGN ? (" := '" + abbrev(v) + "'").c_str() : "", store(o.target));
@@ -586,8 +617,32 @@ struct Sys {
 			may.insert(K);
 		}
 		if (bad) return false;
+		if (job.probe && root) probe_copy(opsig, desc);
+		if (bad) return false;
 		if (check) sweep(opsig, K, isassign ? ASSIGN : o.kind, desc);
 		return !bad;
+	}
+	// A copy of a private C++ configuration (where the class allows copying) is another configuration: whatever is done
+	// to the copy, the original keeps answering from its own history.
+	template <class T> static typename std::enable_if<std::is_copy_constructible<T>::value, T *>::type dup_of(const T &o) { return new T(o); }
+	template <class T> static typename std::enable_if<!std::is_copy_constructible<T>::value, T *>::type dup_of(const T &) { return 0; }
+	void probe_copy(const std::string &opsig, const std::string &desc)
+	{
+		phase("copy-object");
+		mpt::config::root *dup = LIB(dup_of(*root));
+		if (!dup) { out.count("copy-object:class-not-copyable(no-op)"); return; }
+		out.count("copy-object:copied");
+		std::set<int> paths; for (auto &o : job.ops) paths.insert(o.path);
+		int n = 0;
+		for (int pi : paths) { const PSpec &p = pool[pi]; if (p.null || p.binary) continue; if (n++ % 3 == 2) LIB(dup->set(p.text.c_str(), 0, p.sep)); else LIB(dup->set(p.text.c_str(), "!copy!", p.sep)); }
+		LIB((delete dup, 0));
+		for (int pi : paths) {
+			const PSpec &p = pool[pi]; std::string got; int r = LIB(get_value(root, p, got));
+			auto it = val.find(p.key);
+			bool same = it == val.end() ? r < 0 : (r >= 0 && got == it->second);
+			if (!same) { fail("copy-object|cxx|" + pclass(p) + "|original-changed", desc + "; then a copy of the configuration object is made, modified (set/remove of every alphabet path) and destroyed: the ORIGINAL now answers " + (r < 0 ? std::string("absent") : "'" + abbrev(got) + "'") + " for " + p.label + ", its own history says " + (it == val.end() ? std::string("absent") : "'" + abbrev(it->second) + "'")); return; }
+		}
+		if (asan_error()) fail("copy-object|cxx|-|asan", desc + "; copying / modifying / destroying a copy: memory error (AddressSanitizer)");
 	}
 	// ---- teardown: clear the store, everything must be gone and released
 	void teardown(const std::string &opsig, const std::string &desc)
@@ -630,7 +685,7 @@ static void warm_up(const Job &job)
 static std::string opname(const Job &job, int op)
 {
 	const OpSpec &o = job.ops[op]; static std::vector<std::string> vals = values();
-	std::string s = (o.kind == ASSIGN ? "assign " : (o.kind == REMOVE ? "remove " : (o.kind == COPY ? "copy " : "del "))) + pool[o.path].label;
+	std::string s = (o.kind == ASSIGN ? "assign " : (o.kind == REMOVE ? "remove " : (o.kind == COPY ? "copy " : (o.kind == UNSET ? "unset " : "del ")))) + pool[o.path].label;
 	if (o.kind == ASSIGN) s += ":='" + abbrev(vals[o.value]) + "'";
 	if (o.kind == COPY) s += "<-get(" + pool[o.value].label + ")";
 	if (job.kind == VIEW) s += o.target ? fmt(" (view@%s)", job.base.c_str()) : " (global)";
@@ -644,7 +699,7 @@ static std::string fault_record(const Job &job, int op, const std::string &child
 	Out out;
 	std::string store = job.kind == VIEW ? (o.target ? "view" : "view,via-global") : kindname[job.kind];
 	std::string ph = g_phase ? g_phase : "?";
-	out.violation(std::string(opword(o.kind)) + "|" + store + "|" + Sys::pclass(p).substr(0, Sys::pclass(p).find(',')) + (p.binary ? ",binary-sep" : "") + "|" + why + (ph == "assign" || ph == "remove" || ph == "del" || ph == "copy" ? "" : ",in-" + ph),
+	out.violation(std::string(opword(o.kind)) + "|" + store + "|" + Sys::pclass(p).substr(0, Sys::pclass(p).find(',')) + (p.binary ? ",binary-sep" : "") + "|" + why + (ph == "assign" || ph == "remove" || ph == "del" || ph == "copy" || ph == "unset" ? "" : ",in-" + ph),
 	              opname(job, op) + ": the process running this history ended with " + why + " during phase '" + ph + "'");
 	return ser(out);
 }
@@ -755,7 +810,7 @@ static void explore_store(Run &r, const Job &job)
 	r.additive = false;
 	r.require("nontrivial"); r.require("assign:overwrite"); r.require("query:hit-expected"); r.require("query:absence-expected");
 	r.require("assign:beneath-a-valued-path"); r.require("assign:above-valued-paths"); r.require("assign:value>=250 bytes");
-	r.require("copy:onto-itself"); r.require("copy:from-other-path");
+	r.require("copy:onto-itself"); r.require("copy:from-other-path"); r.require("unset:long-value"); r.require("unset:short-value");
 	r.require("remove:inner-with-keys-beneath"); r.require("remove:leaf"); r.require("remove:absent"); r.require("remove:everything");
 	g_phase = (char *) mmap(0, 4096, PROT_READ | PROT_WRITE, MAP_SHARED | MAP_ANONYMOUS, -1, 0);
 	explore_inproc(r, job);
@@ -844,8 +899,9 @@ static bool rebuild(Run &r, const WMode &m, const Key &comps, const std::string 
 		// walk `tail` elements, then rebuild the end of the remaining path: delete its last element and add another one
 		for (size_t i = 0; i < tail; ++i) LIB(mpt::mpt_path_next(p));
 		r.hint(DEL);
-		int n = do_del(); ++r.transitions;
-		Key expect(comps.begin() + tail, comps.end() - 1);
+		bool consumed = tail >= comps.size();      // nothing left to delete: continue building behind the consumed part
+		int n = consumed ? (int) comps.back().size() : do_del(); ++r.transitions;
+		Key expect; if (!consumed) expect.assign(comps.begin() + tail, comps.end() - 1);
 		std::string dop = std::string(DEL) + ",after-next";
 		if (n != (int) comps.back().size()) fail(dop.c_str(), "wrong-components", fmt("after %zu x next: del returns %d, last element has %zu bytes", tail, n, comps.back().size()));
 		else if (!walk(*p, got, err) || got != expect) fail(dop.c_str(), "wrong-components", fmt("after %zu x next and del the path walks as %s, expected %s", tail, comps_str(got).c_str(), comps_str(expect).c_str()));
@@ -977,8 +1033,8 @@ static void walk_case(Run &r, WCount &wc, const WMode &m, const std::string &s)
 			rebuild(r, m, comps, cls, what);
 			ledger_reset(); asan_error();
 			rebuild(r, m, comps, cls, what, true);
-			// walk k elements, then rebuild the tail (at least one element stays in front of the deleted one)
-			for (size_t k = 1; k + 2 <= comps.size(); ++k) { ledger_reset(); asan_error(); rebuild(r, m, comps, cls, what, false, k); r.count("rebuild:tail-after-next"); }
+			// walk k elements, then rebuild the tail: delete the last element (k < n) and add another one, also when nothing is left
+			for (size_t k = 1; k <= comps.size(); ++k) { ledger_reset(); asan_error(); rebuild(r, m, comps, cls, what, false, k); r.count("rebuild:tail-after-next"); }
 			r.count(m.binary ? "rebuild:length-prefixed" : "rebuild:text");
 		}
 	}
